@@ -657,6 +657,11 @@ func (h *hist) block() bool {
 			m["pool"] = errClass(err)
 			subs = append(subs, m)
 		}
+		if h.cfg.replays && h.rnd.Intn(3) == 0 {
+			if m := h.injectForbidden(prop); m != nil {
+				subs = append(subs, m)
+			}
+		}
 		delay := int64(20 + h.rnd.Intn(100))
 		// cross the validation time windows now and then
 		if h.cfg.epochs {
@@ -680,7 +685,7 @@ func (h *hist) block() bool {
 		data = sim.Encode(blk)
 	}
 	if h.cfg.replays && !empty && h.rnd.Intn(3) == 0 {
-		h.crafted(blk, height)
+		h.crafted(prop, blk, height)
 	}
 	// an alternative block for the same height (for the speculative replica)
 	var other []byte
@@ -841,11 +846,65 @@ func (h *hist) reorg(head uint64) {
 	h.out.Emit(tr.M{"ev": "Reset", "hid": h.id, "to": to, "from": head, "reverted": reverted, "ledger": h.prevLed, "status": status, "obs": obs})
 }
 
+// injectForbidden plays a proposer whose mempool does not filter ("whatever the mempool holds"): a transaction that
+// must never be applied - an already included one, one signed for another epoch, one with a non-consecutive nonce -
+// is put straight into the executable queue of the proposer's REAL pool.  The block is then built by the real
+// BuildBlockTransactions / ProposeBlock; if the node's own application rules let the transaction through, it ends up
+// in a block every replica accepts and the ledger clauses (NoDouble / EpochMatch / Consecutive) see it.
+func (h *hist) injectForbidden(prop *replica) tr.M {
+	var rec *txRec
+	what := ""
+	switch h.rnd.Intn(4) {
+	case 0:
+		if len(h.included) == 0 {
+			return nil
+		}
+		old := h.included[h.rnd.Intn(len(h.included))]
+		rec, what = &txRec{id: old.id, tx: old.tx, from: old.from, m: old.m}, "replay"
+	case 1, 2:
+		fs := h.funded()
+		if len(fs) == 0 {
+			return nil
+		}
+		from := h.pick(fs)
+		to := h.w.Addrs[1+h.rnd.Intn(8)]
+		eadj := 1
+		if h.ref.n.App.State.Epoch() > 0 && h.rnd.Intn(2) == 0 {
+			eadj = -1
+		}
+		rec, what = h.mkTx(from, types.SendTx, &to, sim.Dna(int64(1+h.rnd.Intn(9)), 1), nil, 0, eadj, map[int]uint32{}), "foreign-epoch"
+		if eadj == 1 && h.rnd.Intn(2) == 0 {
+			// first transaction of the NEXT epoch (nonce 1)
+			rec = h.mkTx(from, types.SendTx, &to, sim.Dna(int64(1+h.rnd.Intn(9)), 1), nil, -int(mustNonce(h, from)), 1, map[int]uint32{})
+		}
+	default:
+		fs := h.funded()
+		if len(fs) == 0 {
+			return nil
+		}
+		from := h.pick(fs)
+		to := h.w.Addrs[1+h.rnd.Intn(8)]
+		rec, what = h.mkTx(from, types.SendTx, &to, sim.Dna(1, 1), nil, 1+h.rnd.Intn(2), 0, map[int]uint32{}), "nonce-gap"
+	}
+	prop.n.Pool.VerifInjectExecutable(rec.tx)
+	m := tr.M{}
+	for k, v := range rec.m {
+		m[k] = v
+	}
+	m["pool"] = "injected:" + what
+	return m
+}
+
+func mustNonce(h *hist, from int) uint32 {
+	n, _ := h.nextNonce(from)
+	return n
+}
+
 // crafted offers every replica a copy of an honest proposal whose body additionally carries a transaction
 // that must never be applied: an already included one (replay), one signed for another epoch, one with a
 // non-consecutive nonce.  The transaction commitment is recomputed so that only the strict processing of the
 // body can refuse it.
-func (h *hist) crafted(honest *types.Block, height uint64) {
+func (h *hist) crafted(prop *replica, honest *types.Block, height uint64) {
 	s := h.ref.n.App.State
 	var extra *types.Transaction
 	what := ""
@@ -890,18 +949,23 @@ func (h *hist) crafted(honest *types.Block, height uint64) {
 		}
 	}
 	_ = s
-	c := sim.Decode(sim.Encode(honest))
-	c.Body.Transactions = append(c.Body.Transactions, extra)
-	c.Header.ProposedHeader.TxHash = types.DeriveSha(types.Transactions(c.Body.Transactions))
-	data := sim.Encode(c)
+	// the block a malicious proposer would offer: honest body + the forbidden transaction, every derived header field
+	// computed by the node's own functions (VerifCraftBlock runs the body through the strict processTxs first)
+	body := append(append([]*types.Transaction(nil), honest.Body.Transactions...), extra)
 	verdicts := tr.M{}
-	for _, r := range h.reps {
-		if r.n.Chain.Head.Height()+1 != height {
-			continue
+	c, cerr := prop.n.Chain.VerifCraftBlock(body, honest.Header.Time())
+	if cerr != nil {
+		verdicts["crafting-node"] = errClass(cerr)
+	} else {
+		data := sim.Encode(c)
+		for _, r := range h.reps {
+			if r.n.Chain.Head.Height()+1 != height {
+				continue
+			}
+			var err error
+			h.inZone(r, func() { err = r.n.Validate(data) })
+			verdicts[r.name] = errClass(err)
 		}
-		var err error
-		h.inZone(r, func() { err = r.n.Validate(data) })
-		verdicts[r.name] = errClass(err)
 	}
 	h.out.Emit(tr.M{"ev": "Crafted", "hid": h.id, "h": height, "what": what, "tx": id, "verdicts": verdicts})
 }
